@@ -166,15 +166,6 @@ def Obs.acceptedAs (o : Obs) (ak : Bytes) : Bool :=
 
 -- ---------------------------------------------------------------- what a key's signature covers (C28)
 
-/-- percent-decoding of an escaped path (`url.PathUnescape` on a valid escaping) -/
-def pctDecode : Bytes → Bytes
-  | [] => []
-  | c :: h1 :: h2 :: rest =>
-    if c == 37 && isHexChar h1 && isHexChar h2 then
-      UInt8.ofNat (hexDigitVal h1 * 16 + hexDigitVal h2) :: pctDecode rest
-    else c :: pctDecode (h1 :: h2 :: rest)
-  | c :: rest => c :: pctDecode rest
-
 /-- SigV4's canonical form of a header value: trimmed, sequential spaces collapsed -/
 def specValue (vs : List Bytes) : Bytes := collapse (trimSpace (join [44] vs))
 
